@@ -85,7 +85,7 @@ func (w *world) parseCheck(h *recHandler, msg *service.Message) {
 	liveErr := h.rx.Parse(msg.JTMessage)
 	liveC := ""
 	if liveErr == nil {
-		liveC = canon(reflect.ValueOf(h.rx))
+		liveC = canon(parsedValue(h.rx))
 	}
 
 	hc := *msg.JTMessage.Header
@@ -97,7 +97,7 @@ func (w *world) parseCheck(h *recHandler, msg *service.Message) {
 	feErr := fe.Parse(exact)
 	feC := ""
 	if feErr == nil {
-		feC = canon(reflect.ValueOf(fe))
+		feC = canon(parsedValue(fe))
 	}
 
 	hc2 := *msg.JTMessage.Header
@@ -105,7 +105,7 @@ func (w *world) parseCheck(h *recHandler, msg *service.Message) {
 	flErr := fl.Parse(&jt808.JTMessage{Header: &hc2, Body: msg.JTMessage.Body, VerifyCode: msg.JTMessage.VerifyCode})
 	flC := ""
 	if flErr == nil {
-		flC = canon(reflect.ValueOf(fl))
+		flC = canon(parsedValue(fl))
 	}
 
 	// totality of rendering (a panic here is recorded by the goroutine wrapper as a decoder panic)
@@ -123,8 +123,12 @@ func (w *world) parseCheck(h *recHandler, msg *service.Message) {
 		if os.Getenv("VERIF_DEBUG") != "" {
 			fmt.Fprintf(os.Stderr, "C03 DEBUG beyond_slice id=%#04x dialect=%d body=%x\n flErr=%v feErr=%v\n live =%s\n exact=%s\n", id, w.plan.Svc.Dialect, exactBody, flErr, feErr, flC, feC)
 		}
+		where := ""
+		if flErr == nil && feErr == nil {
+			where = ":" + firstDiff(parsedValue(fl), parsedValue(fe), 0)
+		}
 		w.parseViol = append(w.parseViol, Violation{Prop: "C03", Rule: "C03.beyond_slice",
-			Sig:  fmt.Sprintf("C03.beyond_slice:%#04x", id),
+			Sig:  fmt.Sprintf("C03.beyond_slice:%#04x%s", id, where),
 			Msg:  fmt.Sprintf("parsing body of %#04x (%d bytes) gives a different outcome when the same bytes sit in a buffer with other data behind them", id, len(exactBody)),
 			Step: simrt.Step()})
 		return
@@ -138,7 +142,7 @@ func (w *world) parseCheck(h *recHandler, msg *service.Message) {
 			// re-parse into two fresh receivers is not possible for the live one; name the field from a re-parse pair
 			fr := h.mk()
 			_ = fr.Parse(&jt808.JTMessage{Header: &hc2, Body: msg.JTMessage.Body, VerifyCode: msg.JTMessage.VerifyCode})
-			field = firstDiff(reflect.ValueOf(h.rx), reflect.ValueOf(fr), 0)
+			field = firstDiff(parsedValue(h.rx), parsedValue(fr), 0)
 		}
 		w.parseViol = append(w.parseViol, Violation{Prop: "C03", Rule: "C03.receiver_history",
 			Sig:  fmt.Sprintf("C03.receiver_history:%#04x:%s", id, field),
@@ -146,6 +150,18 @@ func (w *world) parseCheck(h *recHandler, msg *service.Message) {
 			Step: simrt.Step()})
 		return
 	}
+}
+
+// parsedValue is what a Parse call produced: the receiver itself, except for the README's location type, where it
+// is the embedded location report (its additions reference the extension values this parse filled in; an
+// extension receiver the body had no item for was not given anything to parse and is not part of the result).
+//
+//go:norace
+func parsedValue(h any) reflect.Value {
+	if ml, ok := h.(*meLocation); ok {
+		return reflect.ValueOf(&ml.T0x0200)
+	}
+	return reflect.ValueOf(h)
 }
 
 // stringOf renders a successfully parsed value as text (totality of String is part of C03).
@@ -287,6 +303,22 @@ func firstDiff(a, b reflect.Value, depth int) string {
 				if fa.Kind() == reflect.Struct && fb.Kind() == reflect.Struct && fa.Type() == fb.Type() {
 					return f.Name + "." + firstDiff(fa, fb, depth+1)
 				}
+			}
+			if fa, fb := a.Field(i), b.Field(i); fa.Kind() == reflect.Map && fb.Kind() == reflect.Map {
+				// name the entry: the smallest key (by its printed form) whose values differ or that only one side has
+				best := ""
+				for _, m := range []reflect.Value{fa, fb} {
+					for _, k := range m.MapKeys() {
+						x, y := fa.MapIndex(k), fb.MapIndex(k)
+						if x.IsValid() && y.IsValid() && canon(x) == canon(y) {
+							continue
+						}
+						if ks := fmt.Sprintf("%#v", k.Interface()); best == "" || ks < best {
+							best = ks
+						}
+					}
+				}
+				return f.Name + "[" + best + "]"
 			}
 			return f.Name
 		}
